@@ -8,7 +8,8 @@ Abstract value of a local: set of (origin, level).
           INTERIOR   an object reachable inside it through list / dict / namespace levels
           HELD       a fresh container whose elements alias the origin's interior (shallow copy)
           DEEP0      a fresh copy down to (not through) tuples / sets  (clone, recreate_branches, strip_meta)
-          UT         an object read out of such a copy: fresh unless it sits below a tuple / set
+          UT         low-confidence alias: an object read out of such a copy (fresh unless it sits below a
+                     tuple / set), or a value bound through a ** splat of a mapping with unknown keys
 The empty set is a fresh / unrelated value.
 
 A *mutation* is a subscript / attribute store, del, augmented assignment, or a call
@@ -41,7 +42,7 @@ SHALLOW_COPIES = {"list", "dict", "set", "tuple", "sorted", "frozenset", "Ordere
 # are analysed like any other function, so a conditional copy shows up as a possible alias of the argument
 DEEP_EXCEPT_TUPLE = {"clone", "recreate_branches"}
 DEEP_COPIES = {"deepcopy"}
-READ_THROUGH = {"get", "items", "values", "keys", "get_value_and_parent", "getattr", "next", "iter", "enumerate", "zip", "reversed", "filter", "vars", "get_sorted_keys", "as_dict", "as_flat"}
+READ_THROUGH = {"setdefault", "pop", "popitem", "get", "items", "values", "keys", "get_value_and_parent", "getattr", "next", "iter", "enumerate", "zip", "reversed", "filter", "vars", "get_sorted_keys", "as_dict", "as_flat"}
 FRESH_RESULT_BUILTINS = {"len", "str", "int", "float", "bool", "repr", "isinstance", "hasattr", "type", "id", "range", "any", "all", "min", "max", "sum", "callable", "format", "print", "join"}
 
 TYPE_U = frozenset({"dict", "Namespace", "list", "str", "NestedArg", "tuple", "set", "None", "other"})
@@ -429,9 +430,11 @@ class Effects:
                                 prev = amap.get(kwarg)
                                 amap[kwarg] = (lambda r, pv: (lambda st: wrap(ev(r, st)) | (pv(st) if pv else EMPTY)))(vexpr, prev)
                         continue
+                    # ** splat of a mapping with unknown keys: any not yet bound parameter *may* receive any of its
+                    # values - bound at the low-confidence level UT (reported as observation, not as violation)
                     for p in named:
                         if p not in amap:
-                            amap[p] = (lambda r: (lambda st: lower(ev(r, st))))(k.value)
+                            amap[p] = (lambda r: (lambda st: frozenset((o, UT) for o, _ in ev(r, st))))(k.value)
                     if kwarg:
                         amap[kwarg] = (lambda r: (lambda st: shallow(ev(r, st))))(k.value)
                 elif k.arg in params:
@@ -661,7 +664,8 @@ class Effects:
                 t = s.target
                 if isinstance(t, ast.Name):
                     # x += [..] mutates a list in place
-                    if isinstance(s.op, ast.Add) and types_of_value(s.value) != {"str"} and st.get(("?", t.id), TYPE_U) != {"str"}:
+                    rhs_t = types_of_value(s.value)
+                    if isinstance(s.op, ast.Add) and ("list" in rhs_t) and st.get(("?", t.id), TYPE_U) != {"str"}:
                         mutate(st.get(t.id, EMPTY), s, f"in-place {src(s, 40)}")
                     out = dict(st)
                     out[t.id] = st.get(t.id, EMPTY) | shallow(ev(s.value, st))
